@@ -135,10 +135,13 @@ def main():
                                    {"prog": j["prog"], "schedule": j["schedule"], "options": j["options"], "build": bname,
                                     "first_difference_at": k, "default": d[k] if k < len(d) else "END",
                                     "with_options": ev[k] if k < len(ev) else "END"})
-        v, st = pipeline.validate(traces, sc)
+        # option runs that already differ from their default run are violations as they stand (C20.same): the monitor is run
+        # over them only while they are few (grossly deviating traces can be very slow to evaluate)
+        differing = nviol_same > 200
+        v, st = pipeline.validate([t for t in traces if t["cfg"] == -1] if differing else traces, sc)
         nobs = 0
         for t in traces:
-            for entry in v[t["id"]]:
+            for entry in v.get(t["id"], []):
                 cl = pipeline.clause_of(entry)
                 if cl.startswith("H."):
                     continue
@@ -159,7 +162,7 @@ def main():
             deep += dc["summary"]
             for b in dc["bad"]:
                 verdict.report("C20.deep", "+".join(sorted(opts)), b)
-        opt_traces = [t for t in traces if t["cfg"] >= 0][: (1500 if tier == "quick" else 15000)]
+        opt_traces = [] if differing else [t for t in traces if t["cfg"] >= 0][: (1500 if tier == "quick" else 15000)]
         dv, dst = pipeline.validate_sched(opt_traces, sc)
         ndrift = sum(1 for t in opt_traces if dv[t["id"]] is not None)
         nt = {(t["beh"], t["cfg"], t["build"]) for t in traces if t["cfg"] >= 0 and any(e["e"] == "Before" for e in t["events"])}
